@@ -5,6 +5,7 @@
 -/
 import FluteModel.Props.AdmissionLink
 import FluteModel.Session
+import FluteModel.Lemmas.AdmissionSat
 namespace Flute.Props.C01.Admission
 open Flute Flute.Admission
 
@@ -18,16 +19,23 @@ def agrees (x : Rs (Except Refuse Oti)) (refused : Bool) : Prop :=
   | .ok (.ok _) => refused = false
   | .error _ => False
 
+/-- the reference's `max_transfer_length` IS e2e's min(cap, E*B*max_sbn), for all inputs: the saturating products only
+    saturate above every cap (`Lemmas.AdmissionSat.satcap`) -/
+theorem hm_always (sch : Session.Scheme) (e b p : Nat) (sc : Option SchemeSpecific) :
+    maxTransferLength ⟨fecOf sch, 0, b, e, p, sc⟩ = .ok (Session.maxTransferLength sch e b) := by
+  cases sch <;>
+    simp only [maxTransferLength, fecOf, maxSourceBlocksNumber, lengthCap, Session.maxTransferLength, Session.maxSbn,
+      Session.lenCap] <;>
+    (congr 1) <;> exact Lemmas.AdmissionSat.satcap e b _ _ (by decide) (by decide)
+
 /-- **`Session.refusedFull` ⇔ the reference refuses**, on the domain of e2e's model: one of its five schemes,
-    scheme-specific parameters present for Raptor / RaptorQ, `(aLarge, aSmall, nL, n)` = the partition, and `hm`: the
-    reference's `max_transfer_length` is e2e's min(cap, E*B*max_sbn) (true whenever the saturating products do not
-    saturate; where they do both are capped anyway - see the example below). -/
+    scheme-specific parameters present for Raptor / RaptorQ, `(aLarge, aSmall, nL, n)` = the partition. -/
 theorem session_refused_link (sch : Session.Scheme) (e b p tl : Nat) (sc : Option SchemeSpecific)
     (q : Partition.Quad) (hbp : Partition.blockPartitioning b tl e = .ok q)
-    (hm : maxTransferLength ⟨fecOf sch, 0, b, e, p, sc⟩ = .ok (Session.maxTransferLength sch e b))
     (hsc : (sch = .raptorq ∨ sch = .raptor) → sc.isSome = true) :
     agrees (fileDescNew ⟨fecOf sch, 0, b, e, p, sc⟩ none tl)
       (Session.refusedFull sch e b p tl q.1 q.2.1 q.2.2.1 q.2.2.2) := by
+  have hm := hm_always sch e b p sc
   have hu := tooManyBlocks_unreachable ⟨fecOf sch, 0, b, e, p, sc⟩ none tl
   rw [fileDescNew_eq] at hu ⊢
   have h2m : fecOf sch ≠ .rs2m := by cases sch <;> simp [fecOf]
@@ -65,7 +73,7 @@ theorem session_refused_link (sch : Session.Scheme) (e b p tl : Nat) (sc : Optio
       simp [hk]
       by_cases h1 : 0 < q.2.2.1 <;> by_cases h2 : q.2.2.1 < q.2.2.2 <;> simp_all <;> omega
 
-/-- `hm` holds for ordinary parameters, e.g. -/
+/-- `hm_always` at ordinary parameters, e.g. -/
 example : maxTransferLength ⟨fecOf .rs, 0, 64, 1024, 2, none⟩ = .ok (Session.maxTransferLength .rs 1024 64) := rfl
 
 /-- consequence in e2e's vocabulary: no block of an admitted RS / RaptorQ / No-Code object "fails" (`blockFails`
